@@ -83,7 +83,9 @@ int main(int argc, char** argv) {
           add("J", encode(root)); }
         { // K: like A but with an empty block (preamble only) between its blocks and an empty block at the end - valid, and to be skipped by the merge
           Node root = parse_exact(pool[0].bytes); Node& blocks = root.kids[2]; Node empty = mk_map({mk_uint(0), mk_map({mk_uint(0), mk_array({mk_uint(1600000000), mk_uint(0)}), mk_uint(1), mk_uint(0)})});
-          blocks.kids.insert(blocks.kids.begin() + 1, empty); blocks.kids.push_back(empty); add("K", encode(root)); }
+          blocks.kids.insert(blocks.kids.begin() + 1, empty); blocks.kids.push_back(empty); add("K", encode(root));
+          // P: the file STARTS with an empty block (the first thing the merge hands to its exporter is an empty block)
+          Node r2 = parse_exact(pool[0].bytes); r2.kids[2].kids.insert(r2.kids[2].kids.begin(), empty); add("P", encode(r2)); }
         { seeds::Opt o; o.sets = {PS(10000, 1000000, 0)}; o.blocks = 2; o.per_block = 1; o.qr_from = 1; o.vpriv = -1; add("L", seeds::make(o)); }   // no private version at all (a plain RFC 8618 producer)
         { // M: like A, but written by a non-aggregating producer: in each block the first address-event entry appears a second time with another count
           Node root = parse_exact(pool[0].bytes); int edited = 0;
@@ -173,7 +175,7 @@ int main(int argc, char** argv) {
             run_tuple(tuples[i], R);
         }, [&](uint64_t, const std::string& d, Result& R) { R.violation("merge|harness-crash", d.substr(0, 500), pl.last_note); }, total);
         total.n["evaluations"] = total.n["traces"];
-        total.notes.push_back("pool: A(1 set,1e6 tps,3 blocks) B(2 sets,1e3 tps,reduced hints,4 blocks) C(1e9 tps, QR hints 0) D(minor version 5) E(private version 9) G(300 non-CDNS bytes) H(B cut inside block 2) I(valid, zero blocks) J(10^9 ticks, blocks without block-parameters-index) K(A with two empty blocks) L(no private version) M(A with an address-event key listed twice with different counts) N(the same with equal counts) O(B with a duplicated IP table entry in front of referenced ones) Z(missing)");
+        total.notes.push_back("pool: A(1 set,1e6 tps,3 blocks) B(2 sets,1e3 tps,reduced hints,4 blocks) C(1e9 tps, QR hints 0) D(minor version 5) E(private version 9) G(300 non-CDNS bytes) H(B cut inside block 2) I(valid, zero blocks) J(10^9 ticks, blocks without block-parameters-index) K(A with two empty blocks) P(A with an empty block first) L(no private version) M(A with an address-event key listed twice with different counts) N(the same with equal counts) O(B with a duplicated IP table entry in front of referenced ones) Z(missing)");
         return done(0);
     }
 
